@@ -150,6 +150,13 @@ def drip_schedules():
     out.append({"id": "opclose3", "steps": [["offer", 1], ["release", 1], ["packetc", 1], ["lclose", 0]], "refuse": []})
     out.append({"id": "fault1", "steps": [["offer", 1], ["release", 1], ["acceptfault", 0], ["offer", 2], ["release", 2], ["packet", 2], ["hrel", 2]], "refuse": []})
     out.append({"id": "fault2", "steps": [["acceptfault", 0], ["acceptfault", 0], ["offer", 1], ["release", 1], ["packet", 1], ["hrel", 1]], "refuse": []})
+    # admission through a real loader.Loader that lives on Serve's context: connections that arrive around the cancellation
+    L = lambda i, steps, refuse=(): out.append({"id": "ldr%d" % i, "steps": steps, "refuse": list(refuse), "loader": True})
+    L(1, [["offer", 1], ["release", 1], ["packet", 1], ["hrel", 1], ["cancel", 0], ["offer", 2], ["release", 2]])
+    L(2, [["cancel", 0], ["offer", 1], ["release", 1]])
+    L(3, [["offer", 1], ["cancel", 0], ["release", 1], ["offer", 2], ["release", 2], ["kick", 0]])
+    L(4, [["offer", 1], ["release", 1], ["packetc", 1], ["cancel", 0], ["offer", 2], ["kick", 0], ["release", 2], ["hrel", 1]])
+    L(5, [["offer", 1], ["release", 1], ["eof", 1], ["offer", 2], ["release", 2], ["packet", 2], ["hrel", 2], ["cancel", 0], ["kick", 0]])
     out.append({"id": "refused1", "steps": [["offer", 1], ["release", 1], ["offer", 2], ["release", 2], ["packet", 2], ["hrel", 2], ["offer", 3], ["release", 3]], "refuse": [1, 3]})
     return out
 
@@ -175,6 +182,9 @@ def collect(ctx, prop):
     S = [{"id": "mc%d" % i, "steps": [[OPMAP.get(a[0], a[0]), a[1]] for a in s], "refuse": []} for i, s in enumerate(scheds)]
     S += drip_schedules()
     S += [rand_schedule(rng, i) for i in range(nrand)]
+    for s in S:
+        if "loader" not in s and rng.random() < 0.25:
+            s["loader"] = True          # the same schedule with admission through the real loader
     S += burst_schedules(rng, 200 if quick else 2000, 100, 16)
     ctl = controls(ctx)
     ind = inductive(ctx, big=not quick)
